@@ -160,6 +160,19 @@ theorem readLineLoop_measure (k : Nat) (racc : Bytes) (s : RStream) (he : s.eof 
   · simp only [Bool.false_eq_true, if_true, if_false]
     omega
 
+/-! ## `TextFile::readLine(char newline)` -/
+
+/-- `while (1) { char c = read<char>(); if (end() || c == newline) break; s << c; }` — one `fread` of one
+    byte per iteration; at the end of the file the read fails, sets the indicator, and `end()` stops the loop.
+    No CR handling here: the delimiter is the caller's. -/
+def readDelimLoop (delim : UInt8) : Bytes → Bool → Bytes → Bytes × RStream
+  | [], _, racc => (racc.reverse, { rest := [], eof := true })
+  | c :: t, e, racc =>
+    if e || c == delim then (racc.reverse, { rest := t, eof := e })
+    else readDelimLoop delim t e (c :: racc)
+
+def readLineDelim (delim : UInt8) (s : RStream) : Bytes × RStream := readDelimLoop delim s.rest s.eof []
+
 /-! ## `TextFile::lines()` -/
 
 /-- `while (!end()) { lines << String(); readLine(lines.last()); }` — `end()` is `feof`; the return value
